@@ -1,7 +1,7 @@
 (* C18 — socket transport framing: records are delivered intact. Statements only.
    (The multiplexing half of the property - responses matched to requests by id across connections -
    and the pipe transport are covered by sampled loopback runs in the check, not by a theorem.) *)
-From MpV Require Import Model.SockFrame Proof.SockFrameProof.
+From MpV Require Import Model.SockFrame Proof.SockFrameProof Proof.SockFrameTrunc.
 
 (* For every payload (any bytes, any length: newlines, header-like text, empty), every request id
    and encoder name that are non-empty and contain no whitespace, and every following bytes:
@@ -24,6 +24,16 @@ Print Assumptions C18_frames_concat.
 Theorem C18_length_field_roundtrip : forall n, parse_nat (render_nat n) = Some n.
 Proof. exact parse_render. Qed.
 Print Assumptions C18_length_field_roundtrip.
+
+(* A record that has not arrived completely is never delivered: for every strict prefix of an
+   encoded record followed by the end of the stream (the peer closed the connection), read_record
+   yields nothing (IncompleteReadError in the code) - never a shorter or different record. *)
+Theorem C18_truncated_record_not_delivered : forall id enc payload k,
+  wf_token id = true -> wf_token enc = true ->
+  k < length (encode_record id enc payload) ->
+  read_record (firstn k (encode_record id enc payload)) = None.
+Proof. exact truncated_record_not_delivered. Qed.
+Print Assumptions C18_truncated_record_not_delivered.
 
 Example C18_example :
   read_record (encode_record [97; 49] [112] [10; 53; 32; 120; 10] ++ [1; 2]) =
